@@ -783,6 +783,8 @@ class Seams:
         """Swap in a new world cheaply (re-install)."""
         self.uninstall()
         self.install(world)
+        from . import world as _wm
+        _wm.CURRENT[0] = world
 
     def uninstall(self):
         for (mod, name, old) in self.saved.values():
